@@ -188,6 +188,9 @@ func GenProg(tape *simrt.Tape, q *big.Int, feat GenFeat) (*Prog, []*big.Int) {
 				continue
 			}
 			o.K = 3 + ch(10)
+			if o.K > q.BitLen()-2 {
+				o.K = q.BitLen() - 2
+			}
 		}
 		p.Ops = append(p.Ops, o)
 		vals = append(vals, evalOp(o, vals, q))
@@ -228,7 +231,8 @@ func drawValue(tape *simrt.Tape, q *big.Int) *big.Int {
 		}
 		return v.Mod(v, q)
 	case 4, 5:
-		return big.NewInt(int64(tape.Choose(simrt.SWorkload, 1000)))
+		v := big.NewInt(int64(tape.Choose(simrt.SWorkload, 1000)))
+		return v.Mod(v, q)
 	default:
 		v := new(big.Int)
 		for i := 0; i < (q.BitLen()+31)/32; i++ {
@@ -236,6 +240,14 @@ func drawValue(tape *simrt.Tape, q *big.Int) *big.Int {
 		}
 		return v.Mod(v, q)
 	}
+}
+
+// cmpBits is the width of the small values compared by opCmpSmall.
+func cmpBits(q *big.Int) int {
+	if q.BitLen()-1 < 8 {
+		return q.BitLen() - 1
+	}
+	return 8
 }
 
 func lowBits(v *big.Int, k int) *big.Int {
@@ -307,7 +319,7 @@ func evalOp(o Op, v []*big.Int, q *big.Int) *big.Int {
 	case opMulAcc:
 		r.Mul(b, c).Add(r, a)
 	case opCmpSmall:
-		x, y := lowBits(a, 8), lowBits(b, 8)
+		x, y := lowBits(a, cmpBits(q)), lowBits(b, cmpBits(q))
 		r.SetInt64(int64(x.Cmp(y) + 1))
 	case opRange:
 		r = lowBits(a, o.K)
@@ -411,8 +423,9 @@ func (c *GC) Define(api frontend.API) error {
 			// MulAcc may modify its first argument in place; use a fresh sum
 			r = api.MulAcc(api.Add(v[o.A], 0), v[o.B], v[o.C])
 		case opCmpSmall:
-			x := api.FromBinary(toBits(o.A)[:8]...)
-			y := api.FromBinary(toBits(o.B)[:8]...)
+			cb := cmpBits(api.Compiler().Field())
+			x := api.FromBinary(toBits(o.A)[:cb]...)
+			y := api.FromBinary(toBits(o.B)[:cb]...)
 			r = api.Add(api.Cmp(x, y), 1)
 		case opRange:
 			if rc == nil {
@@ -435,7 +448,13 @@ func (c *GC) Define(api frontend.API) error {
 		for _, cs := range p.Commits {
 			var args []frontend.Variable
 			for _, i := range cs {
-				args = append(args, v[i])
+				// constants cannot be committed to
+				if _, isConst := api.Compiler().ConstantValue(v[i]); !isConst {
+					args = append(args, v[i])
+				}
+			}
+			if len(args) == 0 {
+				continue
 			}
 			x, err := cm.Commit(args...)
 			if err != nil {
